@@ -123,6 +123,54 @@ def mk_case(rng, t, remove, label, revert, absent):
             "meta": {"how": label, "revert": revert, "ntips": len(ls), "left>=3": left >= 3,
                      "rooted": len(t["slots"]) == 2, "absent": absent}}
 
+
+def pre_history_case(rng, g, tier):
+    """the tree has been indexed and then edited through the public API without reindexing (graft a
+    tip, rename a tip with SetName, an earlier RemoveTips, Clone); the names to remove are the
+    new / renamed tips only, old names only, or both.  The judge takes the tree dumped just before
+    the call as the input."""
+    t = g.tree(lo=6, hi=14, maxdeg=4, lenmode=rng.choice(["all", "all", "mixed"]), supmode="mixed",
+               up_random=rng.random() < 0.5)
+    tips = leaves(t)
+    pre, new, gone = [], [], []
+    noindex = rng.random() < 0.15
+    for j in range(rng.randint(1, 3)):
+        r = rng.random()
+        if r < 0.35:
+            nm = "g%d" % j
+            pre.append([Sym("graft"), nm, rng.randrange(0, 40)]); tips.append(nm); new.append(nm)
+        elif r < 0.6:
+            old = rng.choice(tips); nm = "r%d" % j
+            pre.append([Sym("rename"), old, nm]); tips[tips.index(old)] = nm; new.append(nm); gone.append(old)
+        elif r < 0.75 and len(tips) > 6:
+            k = rng.randint(1, len(tips) - 5)
+            rm = rng.sample(tips, k)
+            pre.append([Sym("prune"), False, rm]); tips = [a for a in tips if a not in rm]
+            new = [a for a in new if a not in rm]; gone += rm
+        elif r < 0.87:
+            pre.append([Sym("clone")])
+        else:
+            pre.append([Sym("index")])
+    old_tips = [a for a in tips if a not in new]
+    mode = rng.choice(["new-only", "new-only", "old-only", "both", "gone-names"])
+    if mode == "new-only" and new:
+        remove = rng.sample(new, rng.randint(1, len(new)))
+    elif mode == "old-only" or not new:
+        remove = rng.sample(old_tips, rng.randint(1, max(1, len(old_tips) - 3)))
+    elif mode == "gone-names" and gone:
+        remove = rng.sample(gone, min(len(gone), 2))          # names that are not tips any more
+    else:
+        remove = rng.sample(new, rng.randint(1, len(new))) + rng.sample(old_tips, rng.randint(1, max(1, len(old_tips) - 3)))
+    revert = rng.random() < 0.3
+    names = [a for a in tips if a not in remove] if revert else list(remove)
+    rng.shuffle(names)
+    case = {"tree": T(t), "names": names, "revert": revert, "pre": pre}
+    if noindex:
+        case["noindex"] = True
+    left = len([a for a in tips if a not in remove])
+    return {"sx": sx(case), "meta": {"how": "pre:" + mode, "revert": revert, "ntips": len(tips), "left>=3": left >= 3,
+                                     "rooted": len(t["slots"]) == 2, "absent": mode == "gone-names"}}
+
 def gen(rng, tier):
     g = Gen(rng)
     out = []
@@ -139,6 +187,8 @@ def gen(rng, tier):
             if add_chains(rng, g, t, remove, lm):
                 label += "+chain"
         out.append(mk_case(rng, t, remove, label, rng.random() < 0.4, rng.random() < 0.25))
+    for _ in range({"quick": 250, "thorough": 3000, "search": 700}[tier]):
+        out.append(pre_history_case(rng, g, tier))
     # exhaustive: every shape x every subset x both flags
     if tier != "search":
         k = 4 if tier == "quick" else 5
